@@ -1,6 +1,7 @@
 package rules
 
 import (
+	"sort"
 	"fmt"
 	"go/token"
 	"go/types"
@@ -279,6 +280,34 @@ func c07(c *Ctx) {
 		arg := s.Instr.(ssa.CallInstruction).Common().Args[0]
 		_, f := fieldLoad(lenOf(arg))
 		R.Check("C07.use", R.Key("C07.use", shortFn(s.Fn), "call:CalculateQuorum"), c.sitePos(p, s), "quorum is computed from the number of keys of a guardian set", f != nil && f.Name() == "Keys", "argument = "+facts.Term(arg))
+		// … and of THE set the function works with: the threshold must be floor(2n/3)+1 for the n
+		// of the set whose keys are iterated / indexed for this VAA, not for whichever set is
+		// current (they differ in size across a guardian-set update)
+		if f != nil && f.Name() == "Keys" && s.Fn.Name() == "handleObservation" {
+			// (the publishing decision; handleCleanup's two uses are per-branch and only feed
+			// logging/metrics and the settlement count)
+			base := ""
+			if u, ok := lenOf(arg).(*ssa.UnOp); ok {
+				if fa, ok := u.X.(*ssa.FieldAddr); ok {
+					base = facts.Term(fa.X)
+				}
+			}
+			others := map[string]bool{}
+			eachInstr(s.Fn, func(i ssa.Instruction) {
+				if fa, ok := i.(*ssa.FieldAddr); ok && fieldOfAddr(fa) == f {
+					if t := facts.Term(fa.X); t != base {
+						others[t] = true
+					}
+				}
+			})
+			var ol []string
+			for t := range others {
+				ol = append(ol, t)
+			}
+			sort.Strings(ol)
+			R.Check("C07.use", R.Key("C07.use", shortFn(s.Fn), "same-set"), c.sitePos(p, s), "the set whose size gives the threshold is the set whose keys "+shortFn(s.Fn)+" iterates and indexes", len(ol) == 0,
+				"threshold from "+base+".Keys, but the function also works with the keys of "+strings.Join(ol, ", ")+": across a guardian-set update the threshold is computed for a set of another size than the one the VAA names")
+		}
 	}
 	R.Floor("C07.use.node", n, 4)
 	// no other quorum-like arithmetic: comparisons against len(x.Keys)*2/3 etc. are not searched (out of scope)
